@@ -260,7 +260,12 @@ def hyp_routes(draw, tier):
         # directed: clones nested in each other whose un-nested (grand)children collide one or two levels up
         g, x = draw(st.sampled_from([("e", "f"), ("a", "b"), ("c", "d")]))
         inner = [g, [[x, []]]] if draw(st.booleans()) else [g, [[g, [[x, []]]]]]
-        pat = [[g, [inner, ["a1", []]]], [x, []]]
+        variant = draw(st.sampled_from(["two-levels-up", "inner-sibling"]))
+        if variant == "two-levels-up":
+            pat = [[g, [inner, ["a1", []]]], [x, []]]
+        else:
+            # the inner clone's own child collides with the inner clone's sibling (remove inner, keep_children)
+            pat = [[g, [[g, [[x, []], ["a1", []]]], [x, []]]]]
         host = draw(st.sampled_from(["top", "below"]))
         if host == "top" and all(n[0] not in (g, x) for n in case["spec"]):
             case["spec"] = case["spec"] + pat
